@@ -17,7 +17,7 @@ use crate::ir::rq::{
     self, CId, RelationColumn, RelationLiteral, RelationalQuery, TId, TableDecl, Transform,
 };
 use crate::pr::TyTupleField;
-use crate::semantic::write_pl;
+use crate::semantic::{write_pl, NS_THAT};
 use crate::utils::{toposort, IdGenerator};
 use crate::{Error, Reason, Result, Span, WithErrorInfo};
 
@@ -988,8 +988,12 @@ impl Lowerer {
                 } else if matches!(
                     self.root_mod.module.get(&ident).map(|d| &d.kind),
                     Some(DeclKind::Module(_) | DeclKind::LayeredModules(_))
-                ) {
+                ) || (ident.path.is_empty() && ident.name == NS_THAT)
+                {
                     // the name resolved to a module: not a value
+                    // (`that` outside of a join condition resolved to the empty namespace that
+                    // shadows it while the arguments of a transform are resolved; it has been
+                    // unshadowed since, so the lookup above does not find it)
                     return Err(Error::new(Reason::Expected {
                         who: None,
                         expected: "a value".to_string(),
